@@ -27,7 +27,8 @@ type Frame struct {
 	// where to put the result in the caller (index of the call value), -1 none
 	retSlot int
 	// running deferred calls after a return/rundefers
-	visits map[int]int // block index -> visit count (loop unwinding)
+	visits  map[int]int // block index -> visit count (loop unwinding)
+	lastSym map[int]int
 	// onReturn, when set, is called natively with the results instead of
 	// storing them into the caller's slot.
 	onReturn func(st *State, res Value) error
@@ -42,6 +43,12 @@ func (f *Frame) clone() *Frame {
 		g.visits = make(map[int]int, len(f.visits))
 		for k, v := range f.visits {
 			g.visits[k] = v
+		}
+	}
+	if f.lastSym != nil {
+		g.lastSym = make(map[int]int, len(f.lastSym))
+		for k, v := range f.lastSym {
+			g.lastSym[k] = v
 		}
 	}
 	return &g
@@ -108,6 +115,7 @@ type State struct {
 	alt      map[interface{}]int
 	nchoice  int
 	isInit   bool
+	symBr    int
 }
 
 func (s *State) clone() *State {
@@ -505,29 +513,26 @@ func (s *State) loadAt(v Value, path []Step) (Value, error) {
 			v = s.elem(av, i)
 			continue
 		}
-		// symbolic index: merge over all elements
+		// symbolic index: multi-way merge over all elements
 		rest := path[pi+1:]
-		var acc Value
-		for i := len(av.Elems) - 1; i >= 0; i-- {
+		if len(av.Elems) == 0 {
+			return nil, fmt.Errorf("internal: symbolic index into empty array")
+		}
+		guards := make([]*smt.Term, len(av.Elems))
+		vals := make([]Value, len(av.Elems))
+		for i := range av.Elems {
 			ev, err := s.loadAt(s.elem(av, i), rest)
 			if err != nil {
 				return nil, err
 			}
-			if acc == nil {
-				acc = ev
-				continue
-			}
-			g := c.Eq(st.Idx, c.Const(64, uint64(i)))
-			m, ok := s.mergeV(g, ev, acc)
-			if !ok {
-				return nil, unsupported("cannot merge %T over symbolic index", ev)
-			}
-			acc = m
+			guards[i] = c.Eq(st.Idx, c.Const(64, uint64(i)))
+			vals[i] = ev
 		}
-		if acc == nil {
-			return nil, fmt.Errorf("internal: symbolic index into empty array")
+		m, ok := s.mergeMany(guards, vals)
+		if !ok {
+			return nil, unsupported("cannot merge %T over symbolic index", vals[0])
 		}
-		return acc, nil
+		return m, nil
 	}
 	return v, nil
 }
@@ -628,9 +633,9 @@ func (s *State) note(f string, a ...interface{}) {
 
 // load reads through a pointer (merging over alternatives).
 func (s *State) load(p *Ptr) (Value, error) {
-	var acc Value
-	for i := len(p.Alts) - 1; i >= 0; i-- {
-		al := p.Alts[i]
+	var guards []*smt.Term
+	var vals []Value
+	for _, al := range p.Alts {
 		if al.L == nil {
 			continue // nil dereference is checked by the caller
 		}
@@ -638,20 +643,142 @@ func (s *State) load(p *Ptr) (Value, error) {
 		if err != nil {
 			return nil, err
 		}
-		if acc == nil {
-			acc = v
-			continue
+		guards = append(guards, al.G)
+		vals = append(vals, v)
+	}
+	if len(vals) == 0 {
+		return nil, fmt.Errorf("internal: load through nil-only pointer")
+	}
+	if len(vals) == 1 {
+		return vals[0], nil
+	}
+	m, ok := s.mergeMany(guards, vals)
+	if !ok {
+		return nil, unsupported("cannot merge loads of %T through a multi-target pointer", vals[0])
+	}
+	return m, nil
+}
+
+// mergeMany merges values under mutually exclusive guards (the last value is
+// the default when no guard holds, which the caller has excluded).
+func (s *State) mergeMany(guards []*smt.Term, vals []Value) (Value, bool) {
+	c := s.c()
+	n := len(vals)
+	if n == 1 {
+		return vals[0], true
+	}
+	same := true
+	for i := 1; i < n; i++ {
+		if vals[i] != vals[0] {
+			same = false
+			break
 		}
-		m, ok := s.mergeV(al.G, v, acc)
+	}
+	if same {
+		return vals[0], true
+	}
+	switch x := vals[0].(type) {
+	case *smt.Term:
+		acc, ok := vals[n-1].(*smt.Term)
 		if !ok {
-			return nil, unsupported("cannot merge loads of %T through a multi-target pointer", v)
+			return nil, false
+		}
+		for i := n - 2; i >= 0; i-- {
+			t, ok := vals[i].(*smt.Term)
+			if !ok || t.W != acc.W {
+				return nil, false
+			}
+			acc = c.Ite(guards[i], t, acc)
+		}
+		return acc, true
+	case *Ptr:
+		r := &Ptr{}
+		idx := map[string]int{}
+		for i, v := range vals {
+			pv, ok := v.(*Ptr)
+			if !ok {
+				return nil, false
+			}
+			for _, al := range pv.Alts {
+				g := c.And(guards[i], al.G)
+				if g.IsFalse() {
+					continue
+				}
+				k := "nil"
+				if al.L != nil {
+					k = al.L.key()
+				}
+				if j, ok := idx[k]; ok {
+					r.Alts[j].G = c.Or(r.Alts[j].G, g)
+				} else {
+					idx[k] = len(r.Alts)
+					r.Alts = append(r.Alts, PtrAlt{G: g, L: al.L})
+				}
+			}
+		}
+		if len(r.Alts) == 1 {
+			r.Alts[0].G = c.True
+		}
+		if len(r.Alts) == 0 {
+			return nil, false
+		}
+		return r, true
+	case *Slice:
+		bases := make([]Value, n)
+		offs := make([]Value, n)
+		lens := make([]Value, n)
+		caps := make([]Value, n)
+		for i, v := range vals {
+			sv, ok := v.(*Slice)
+			if !ok {
+				return nil, false
+			}
+			bases[i], offs[i], lens[i], caps[i] = sv.Base, sv.Off, sv.Len, sv.Cap
+		}
+		b, ok1 := s.mergeMany(guards, bases)
+		o, ok2 := s.mergeMany(guards, offs)
+		l, ok3 := s.mergeMany(guards, lens)
+		cp, ok4 := s.mergeMany(guards, caps)
+		if !(ok1 && ok2 && ok3 && ok4) {
+			return nil, false
+		}
+		return &Slice{Base: b.(*Ptr), Off: o.(*smt.Term), Len: l.(*smt.Term), Cap: cp.(*smt.Term)}, true
+	case *Struct:
+		r := &Struct{T: x.T, Fields: make([]Value, len(x.Fields))}
+		for f := range x.Fields {
+			fv := make([]Value, n)
+			allNil := true
+			for i, v := range vals {
+				sv, ok := v.(*Struct)
+				if !ok || len(sv.Fields) != len(x.Fields) {
+					return nil, false
+				}
+				if sv.Fields[f] != nil {
+					allNil = false
+				}
+				fv[i] = s.field(sv, f)
+			}
+			if allNil {
+				continue
+			}
+			m, ok := s.mergeMany(guards, fv)
+			if !ok {
+				return nil, false
+			}
+			r.Fields[f] = m
+		}
+		return r, true
+	}
+	// generic fallback: right fold with pairwise merges
+	acc := vals[n-1]
+	for i := n - 2; i >= 0; i-- {
+		m, ok := s.mergeV(guards[i], vals[i], acc)
+		if !ok {
+			return nil, false
 		}
 		acc = m
 	}
-	if acc == nil {
-		return nil, fmt.Errorf("internal: load through nil-only pointer")
-	}
-	return acc, nil
+	return acc, true
 }
 
 func (s *State) store(p *Ptr, v Value) error {
